@@ -101,6 +101,7 @@ class Ref:
     def _build(self):
         log = self.log
         self.pending_cancel = {}
+        deadline_changes = {}
         spawned_into = {}  # task -> (group scope key, via)
         start_calls = {}  # (caller, opid) -> child
         started_ok = set()
@@ -170,7 +171,12 @@ class Ref:
                 if sc is not None:
                     sc.shield.append((i, bool(ev[6][1])))
             elif k == "x" and ev[5] == "set_deadline" and ev[7][0] == "ok":
-                pass
+                val = ev[6][1]
+                if val == "inf":
+                    val = math.inf
+                elif isinstance(val, list):
+                    val = ev[1] + val[1]
+                deadline_changes.setdefault(ev[6][0], []).append((i, val))
             elif k == "envrun":
                 name = ev[3]
                 if name.startswith("cancel:"):
@@ -178,6 +184,22 @@ class Ref:
                 elif name.startswith("hcancel:"):
                     self._cancel(name[8:], i, it, "env handle.cancel")
         self.possible = getattr(self, "possible", {})
+        # deadline-triggered cancels: the first instant, while the scope is active, at which the
+        # clock has reached the deadline in force
+        for name, sc in list(self.scopes.items()):
+            changes = [(sc.enter, sc.deadline)] + deadline_changes.get(name, [])
+            if all(d == math.inf for _, d in changes):
+                continue
+            end = sc.exit if sc.exit is not None else len(log) - 1
+            for i in range(sc.enter, end + 1):
+                d = [dv for ci, dv in changes if ci <= i][-1]
+                if sc.cancel_lo is not None and sc.cancel_lo <= i:
+                    break
+                if log[i][1] >= d:
+                    self._cancel(name, i, log[i][0] + 1, "deadline")
+                    # the timer callback ran before this event was logged
+                    sc.cancel_lo = max(sc.enter, i - 1)
+                    break
 
     def _cancel_possible(self, g, i):
         self.possible = getattr(self, "possible", {})
@@ -347,3 +369,28 @@ def level_violations(log, ref, K=5, only_tasks=None):
             v.append(f"{op['name']}({op['args']}) by {t} is still blocked at the end although its "
                      f"scope was cancelled at iteration {it_c}")
     return v, worst, n_obl
+
+
+def visible_parent_cancel(ref, sc, i):
+    """(certainly, possibly): is a cancelled enclosing scope visible from scope sc at log index i
+    (sc unshielded and an ancestor up to the first shield cancelled)?"""
+    if sc.shield_at(i):
+        return False, False
+    certainly = possibly = False
+    it = ref.iter_of[i]
+    p = sc.parent
+    while p is not None:
+        ps = ref.scopes.get(p)
+        if ps is None:
+            break
+        if ps.cancel_lo is not None and ps.cancel_lo <= i:
+            possibly = True
+            if ps.cancel_hi is not None and ps.cancel_hi <= it:
+                certainly = True
+            break
+        if ref.possible.get(ps.name) is not None and ref.possible[ps.name] <= i:
+            possibly = True
+        if ps.shield_at(i):
+            break
+        p = ps.parent
+    return certainly, possibly
